@@ -139,6 +139,58 @@ def check(run, ctx):
             run.undecided(D5, sym, "guard/loop shape not recognised")
         else:
             run.finding(D5, sym, f"window-count:{verdict}", f"{sym}: for (n lines, window w) = {verdict[0]} the code produces {verdict[1]} windows, expected {verdict[2]}: duplicated runs at the boundary are dropped (or phantom windows created)", f.loc)
+    D6 = run.rule("D6", "overlap tests between inclusive line ranges are inclusive: start <= end (or the negation of end < start), also when written as max(starts) <= min(ends)", floor=4,
+                  decides="two windows that share a single line overlap: the shifted copy of a periodic block is removed and not counted as a further occurrence")
+    def _kind(e):
+        """'start' / 'end' for a plain name or attribute that denotes a range bound (locals are expanded by the caller)"""
+        t = ast.unparse(e).rsplit(".", 1)[-1].lower()
+        if isinstance(e, ast.Call) and call_name(e) in ("max", "min") and len(e.args) >= 2:
+            ks = {_kind(a) for a in e.args}
+            return ks.pop() if len(ks) == 1 else None
+        if not isinstance(e, (ast.Name, ast.Attribute)):
+            return None
+        if t in ("start_line", "start", "lineno") or t.endswith("_start") or t.startswith("start_"):
+            return "start"
+        if t in ("end_line", "end", "end_lineno") or t.endswith("_end") or t.startswith("end_"):
+            return "end"
+        return None
+    n_d6 = 0
+    for f in sorted(repo.funcs_in(f"{PKG}."), key=lambda x: x.qual):
+        if "overlap" not in f.name.lower():
+            continue
+        negated = {id(c) for n in ast.walk(f.node) if isinstance(n, ast.UnaryOp) and isinstance(n.op, ast.Not) for c in ast.walk(n.operand) if isinstance(c, ast.Compare)}
+        for c in [n for n in ast.walk(f.node) if isinstance(n, ast.Compare) and len(n.ops) == 1]:
+            l_, r_ = expand_locals(f.node, c.left), expand_locals(f.node, c.comparators[0])
+            kl, kr = _kind(l_), _kind(r_)
+            if {kl, kr} != {"start", "end"}:
+                continue
+            n_d6 += 1
+            op = type(c.ops[0]).__name__
+            # orient as  start OP end
+            if kl == "end":
+                op = {"Lt": "Gt", "Gt": "Lt", "LtE": "GtE", "GtE": "LtE"}.get(op, op)
+            inclusive = (op == "LtE") if id(c) not in negated else (op == "Gt")     # positive: start <= end ; negated: not (start > end)
+            sym = f"{f.qual.replace('src.linters.dry.', '')}:{norm(c)}"
+            if inclusive:
+                run.ok(D6, sym, "inclusive bound")
+            elif op in ("Lt", "Gt", "LtE", "GtE"):
+                run.finding(D6, f.qual.replace("src.linters.dry.", ""), f"exclusive-overlap:{norm(c)}", f"`{norm(c)}` treats two inclusive line ranges that share exactly one line as disjoint: both shifted copies of a periodic block survive de-duplication and are counted as separate occurrences", f"{f.module.rel}:{c.lineno}")
+    run.require(n_d6 >= 4, f"only {n_d6} start/end comparisons found in the overlap predicates of the DRY package")
+
+    D7 = run.rule("D7", "DRY helpers that look for the methods of a class (parameter of type ast.ClassDef) test for FunctionDef and AsyncFunctionDef together", floor=1,
+                  decides="a duplicated run inside `async def` methods is treated like one inside plain methods (the class-field filter does not swallow it)")
+    for f in sorted(repo.funcs_in(f"{PKG}."), key=lambda x: x.qual):
+        if not any(a.annotation is not None and "ClassDef" in ast.unparse(a.annotation) for a in f.node.args.args):
+            continue
+        for n in ast.walk(f.node):
+            if isinstance(n, ast.Call) and call_name(n) == "isinstance" and len(n.args) == 2 and "FunctionDef" in ast.unparse(n.args[1]):
+                kinds = {x.attr for x in ast.walk(n.args[1]) if isinstance(x, ast.Attribute)} | {x.id for x in ast.walk(n.args[1]) if isinstance(x, ast.Name)}
+                sym = f"{f.qual.replace('src.linters.dry.', '')}:{norm(n)}"
+                if {"FunctionDef", "AsyncFunctionDef"} <= kinds:
+                    run.ok(D7, sym, "sync and async defs")
+                else:
+                    missing = "AsyncFunctionDef" if "AsyncFunctionDef" not in kinds else "FunctionDef"
+                    run.finding(D7, f.qual.replace("src.linters.dry.", ""), f"def-kind-missing:{missing}", f"`{norm(n)}` does not cover {missing}: a class whose methods are all `async def` has no 'first method', so its whole body counts as field area and every duplicate inside it is discarded", f"{f.module.rel}:{n.lineno}")
     return __doc__
 
 
